@@ -150,8 +150,10 @@ class StdCapture(object):
 class Hygiene(object):
     """Save and restore process-global state around one in-process run."""
 
-    def __init__(self, recursion_limit=None):
+    def __init__(self, recursion_limit=None, debug_logging=False):
         self.recursion_limit = recursion_limit
+        # the embedding application may have switched logging to DEBUG with a handler that formats every record
+        self.debug_logging = debug_logging
 
     def __enter__(self):
         import numpy
@@ -170,12 +172,26 @@ class Hygiene(object):
         self._wf = warnings.filters[:]
         warnings.simplefilter("ignore")
         self._mods = set(sys.modules)
+        self._log = None
+        if self.debug_logging:
+            import logging
+            root = logging.getLogger()
+            handler = logging.StreamHandler(io.StringIO())
+            handler.setFormatter(logging.Formatter("%(name)s %(levelname)s %(message)s"))
+            self._log = (root.level, handler, logging.raiseExceptions)
+            root.addHandler(handler)
+            root.setLevel(logging.DEBUG)
         return self
 
     def __exit__(self, *a):
         import numpy
 
         sys.setrecursionlimit(self._rl)
+        if self._log:
+            import logging
+            root = logging.getLogger()
+            root.removeHandler(self._log[1])
+            root.setLevel(self._log[0])
         numpy.seterr(**self._np)
         warnings.filters[:] = self._wf
         return False
